@@ -241,12 +241,16 @@ int main(int argc, char** argv) {
       for (int k = 0; k < d * d; k++) if (!(std::fabs(B[k] - a[k]) <= 3 * tol)) { c.violation(vh::fmt("C07:UTransform:d%d:not-inverted-by-minus-s", d), what + vh::fmt(" component %d: %.17g -> %.17g", k, a[k], B[k])); break; }
     } catch (std::exception& ex) { c.violation(vh::fmt("C07:UTransform:d%d:exception", d), what + " threw on the way back: " + ex.what()); }
     if (A.GetComponents() != a || V.GetComponents() != v) c.violation("C07:UTransform:operand-modified", what);
-    // the transformed vector and the generator on user-supplied storage: the same bits
+    // the transformed vector and the generator on user-supplied storage: the same result.  Not the same bits: the norm
+    // estimator inside the exponential draws from a per-thread random stream, so two identical calls may choose different
+    // scalings and differ in the last places; both are within the allowance around the exact value.
     try {
       alg::ExtVec EA(a, d), EV(v, d);
       SU_vector R2 = EA.v.UTransform(V, gsl_complex_rect(0, s)), R3 = A.UTransform(EV.v, gsl_complex_rect(0, s));
       c.eval(2); c.count("utransform.user_storage_operands", 2);
-      if (!alg::same_bits(R2, R) || !alg::same_bits(R3, R)) c.violation(vh::fmt("C07:UTransform:d%d:differs-for-operands-on-user-storage", d), what);
+      bool okst = R2.Dim() == R.Dim() && R3.Dim() == R.Dim();
+      for (int k = 0; okst && k < d * d; k++) if (!(std::fabs(R2[k] - R[k]) <= 2 * tol) || !(std::fabs(R3[k] - R[k]) <= 2 * tol)) okst = false;
+      if (!okst) c.violation(vh::fmt("C07:UTransform:d%d:differs-for-operands-on-user-storage", d), what);
       if (!EA.bound() || !EV.bound() || EA.image() != a || EV.image() != v) c.violation("C07:UTransform:operand-modified", what + " [user storage]");
     } catch (std::exception& ex) { c.violation(vh::fmt("C07:UTransform:d%d:exception", d), what + " threw for operands on user storage: " + ex.what()); }
     // the generator may be the transformed vector itself: exp(-isA) A exp(isA) = A
